@@ -35,6 +35,7 @@ struct Doc
     bool analysable = false; // lives under generator/ or analyser/: worth analysing
     bool hasImports = false;
     bool hasResets = false;
+    bool synthetic = false; // written here, not read from tests/resources (appended after the files so that indices stay put)
 };
 
 std::vector<Doc> &corpus()
@@ -94,6 +95,28 @@ void loadCorpus()
         d.hasImports = d.text.find("<import") != std::string::npos;
         corpus().push_back(d);
     }
+    // A pair that a parser's memory of the previous document would show on: a CellML 1.1 model, and CellML 2.0 documents
+    // that carry 1.x-only constructs (public_interface, foreign attributes, the American unit names) - errors in 2.0,
+    // tolerated or rewritten when reading 1.x.
+    static const char *const synthetic[] = {
+        "<?xml version=\"1.0\"?>\n<model xmlns=\"http://www.cellml.org/cellml/1.1#\" xmlns:cellml=\"http://www.cellml.org/cellml/1.1#\" name=\"old_style\">\n"
+        "  <component name=\"c\">\n    <variable name=\"x\" units=\"meter\" public_interface=\"out\"/>\n    <variable name=\"y\" units=\"liter\" initial_value=\"1\"/>\n  </component>\n</model>\n",
+        "<?xml version=\"1.0\"?>\n<model xmlns=\"http://www.cellml.org/cellml/2.0#\" name=\"new_style_with_old_habits\">\n"
+        "  <component name=\"c\" author=\"somebody\">\n    <variable name=\"x\" units=\"meter\" public_interface=\"out\"/>\n    <variable name=\"y\" units=\"liter\" initial_value=\"1\"/>\n  </component>\n</model>\n",
+        "<?xml version=\"1.0\"?>\n<model xmlns=\"http://www.cellml.org/cellml/2.0#\" name=\"valid_but_american\">\n"
+        "  <units name=\"meter\">\n    <unit units=\"metre\"/>\n  </units>\n"
+        "  <component name=\"c\">\n    <variable name=\"x\" units=\"meter\" interface=\"public\"/>\n  </component>\n</model>\n",
+        "<?xml version=\"1.0\"?>\n<model xmlns=\"http://www.cellml.org/cellml/1.0#\" xmlns:cellml=\"http://www.cellml.org/cellml/1.0#\" name=\"older_style\">\n"
+        "  <component name=\"k\">\n    <variable name=\"t\" units=\"second\" public_interface=\"in\" private_interface=\"out\"/>\n  </component>\n</model>\n",
+    };
+    for (auto text : synthetic) {
+        Doc d;
+        d.path = "<synthetic document " + str(corpus().size()) + ">";
+        d.dir = base + "/";
+        d.text = text;
+        d.synthetic = true;
+        corpus().push_back(d);
+    }
 }
 
 // ---------------------------------------------------------------- plan generation
@@ -124,9 +147,21 @@ Plan generate(Rng &rng, const Opts &opts, uint64_t)
     long nDocs = rng.range(1, 3);
     bool wantAnalysable = rng.chance(2, 3);
     bool wantResets = rng.chance(1, 5); // documents with resets are few; some runs ask for them
+    bool wantSynthetic = rng.chance(1, 8); // the 1.x / 2.0-with-old-habits documents, several of them in one run
+    if (wantSynthetic) {
+        nDocs = 3;
+    }
     for (long i = 0; i < nDocs; ++i) {
         for (int tries = 0; tries < 50; ++tries) {
             long d = long(rng.below(corpus().size()));
+            if (wantSynthetic) {
+                size_t nSynthetic = 0;
+                for (auto &doc : corpus()) {
+                    nSynthetic += doc.synthetic ? 1 : 0;
+                }
+                docs.push_back(long(corpus().size() - nSynthetic + rng.below(nSynthetic)));
+                break;
+            }
             if (wantResets && !corpus()[size_t(d)].hasResets && tries <= 40) {
                 continue;
             }
@@ -172,7 +207,12 @@ Plan generate(Rng &rng, const Opts &opts, uint64_t)
             } else {
                 long d = docs[rng.below(docs.size())];
                 bool discard = rng.chance(1, 8); // the client does not keep the model: only the parser's issues refer to it
-                p.steps.push_back(mk(t, "PARSE", {sid, d, long(rng.below(4) != 0), inst, discard ? 1 : 0}));
+                long strictParser = long(rng.below(4) != 0), parserInst = inst;
+                if (wantSynthetic && rng.chance(3, 4)) {
+                    strictParser = 0; // mostly the permissive parser, and mostly one and the same
+                    parserInst = rng.chance(3, 4) ? 1 : 0;
+                }
+                p.steps.push_back(mk(t, "PARSE", {sid, d, strictParser, parserInst, discard ? 1 : 0}));
                 docOf[sid] = d;
                 if (discard) {
                     continue;
